@@ -1374,3 +1374,103 @@ SCHEMALESS = Contract(
          'of element -> SEQUENCE OF, several -> SEQUENCE) is covered by the schemaless stand-in')
 SCHEMALESS.empty_list = _sl_list
 CONTRACTS = CONTRACTS + [SCHEMALESS]
+
+
+# ---- constructed BIT STRING: the fragments' bits appended in wire order, each with its own unused-bits count (X.690 8.6.4) ---------
+BITS_APPEND = z3.Function('append_bits', I, S, I, I)     # (bits so far, octets of the fragment, unused bits in its last octet)
+NO_BITS = IntVal(0)
+
+
+def _bits_from_octets(ex, self, value, internalFormat=False, prepend=None, padding=0):
+    """univ.BitString.fromOctetString (assumed): the bits of `value` minus `padding` unused ones, appended to `prepend`"""
+    acc = NO_BITS if prepend is None else prepend.fields['acc']
+    z = value.z if isinstance(value, SeqV) else mk_seq(list(value))
+    if z3.is_app(z) and z.decl().kind() == z3.Z3_OP_SEQ_EMPTY and prepend is None:
+        return Obj('SizedInteger', {'acc': NO_BITS}, name='bits')
+    return Obj('SizedInteger', {'acc': BITS_APPEND(acc, z, toint(padding))}, name='bits')
+
+
+def bit_fragment_model(ex, substrate, asn1Spec=None, tagSet=None, length=None, state=None, **kw):
+    """decodeFun called with the raw fragment collector: one complete fragment TLV consumed, its contents octets returned
+    (the first of them is the unused-bits count); the marker instead when allowEoo"""
+    if kw.get('allowEoo') is True and ex.choose(ex.fresh('fragment.eoo', BoolSort()), 'end-of-octets'):
+        return END_OF_OCTETS
+    if ex.choose(ex.fresh('fragment.raises', BoolSort()), 'fragment-raises'):
+        raise _Raise(ExcV('PyAsn1Error'))
+    n = ex.fresh('fragment.n', I)
+    ex.assume(n >= 2)
+    substrate.fields['pos'] = substrate.fields['pos'] + n
+    z = ex.fresh('fragment.content', S)
+    ex.assume(inr(z))
+    # ghost: what X.690 8.6.4 says the value is after this fragment
+    ok = isinstance(asn1Spec, Obj) and asn1Spec.name == 'protoComponent' and isinstance(kw.get('substrateFun'), FnV) and \
+        kw['substrateFun'].name == 'substrateCollector'
+    substrate.fields['fragsOk'] = And(substrate.fields['fragsOk'], z3.BoolVal(bool(ok)))
+    substrate.fields['bitsAcc'] = If(Length(z) >= 1, BITS_APPEND(substrate.fields['bitsAcc'], z3.Extract(z, IntVal(1), Length(z) - 1), z[0]),
+                                     substrate.fields['bitsAcc'])
+    substrate.fields['lastFragment'] = SeqV(z, 'bytes')
+    return SeqV(z, 'bytes')
+
+
+bit_fragment_model.is_generator_model = True
+
+
+class PBitFragStream(PStream):
+    def make(self, ex, name):
+        o = PStream.make(self, ex, name)
+        o.fields['bitsAcc'] = NO_BITS
+        o.fields['fragsOk'] = z3.BoolVal(True)
+        o.fields['lastFragment'] = SeqV(z3.Empty(S), 'bytes')
+        return o
+
+
+def _bits_params(**extra):
+    p = payload_params('BitStringPayloadDecoder', 'complete', supportConstructedForm=PBool(),
+                       protoComponent=PConst(Obj('BitString', {}, {'fromOctetString': _bits_from_octets}, name='protoComponent')),
+                       substrateCollector=PConst(FnV(lambda ex, *a, **k: None, 'substrateCollector')))
+    p['substrate'] = PBitFragStream('complete')
+    p.update(extra)
+    return p
+
+
+class PBits(PObjOneOf):
+    """the bits collected so far: some SizedInteger"""
+
+    def __init__(self):
+        PObjOneOf.__init__(self, classes=['SizedInteger'])
+
+    def make(self, ex, name):
+        return Obj('SizedInteger', {'acc': z3.Int(name + '.acc')}, name='bits')
+
+    def admits(self, v):
+        return isinstance(v, Obj) and v.cls == 'SizedInteger'
+
+
+_BITS_INV = ['not value_yielded()', 'bitString.acc == substrate.bitsAcc', 'substrate.fragsOk']
+_BITS_HAVOC = ['substrate.pos', 'substrate.bitsAcc', 'substrate.fragsOk', 'substrate.lastFragment']
+_BITS_ITER = [  # a fragment without its unused-bits octet, or with a count of 8 or more, or with unused bits but no bits, is refused
+    'len(substrate.lastFragment) >= 1 and substrate.lastFragment[0] <= 7 and '
+    '(substrate.lastFragment[0] == 0 or len(substrate.lastFragment) >= 2)']
+BITS_DEC_CONSTRUCTED = Contract(
+    id='ber.decoder::BitStringPayloadDecoder.valueDecoder[constructed]', file=F, qual='BitStringPayloadDecoder.valueDecoder',
+    is_generator=True, properties=['C09', 'C01', 'C08', 'C15'],
+    params=_bits_params(), requires=['length >= 0', 'tagSet[0].tagFormat != 0'],
+    calls={'decodeFun': bit_fragment_model, 'readFromStream': _read_model('complete')},
+    loops={3: Loop(invariant=_BITS_INV + ['substrate.pos >= current_position'], havoc_fields=_BITS_HAVOC,
+                   decl={'bitString': PBits()},
+                   variant='length - (substrate.pos - current_position)', iter_ensures=_BITS_ITER)},
+    yield_ensures=[('the-fragments-bits-in-order', 'last_yield().value.acc == substrate.bitsAcc and substrate.fragsOk')],
+    exit_ensures=[('one-result', 'nyields() == 1'), ('only-if-supported', 'self.supportConstructedForm')],
+    may_raise={'PyAsn1Error': True},
+    note='BitString.fromOctetString is an assumed model (bits of the octets minus the unused ones, appended)')
+BITS_DEC_INDEF = Contract(
+    id='ber.decoder::BitStringPayloadDecoder.indefLenValueDecoder[complete]', file=F,
+    qual='BitStringPayloadDecoder.indefLenValueDecoder', is_generator=True, properties=['C09', 'C01', 'C08'],
+    params=_bits_params(), globals={'eoo': {'endOfOctets': END_OF_OCTETS, '__name__': 'eoo'}},
+    calls={'decodeFun': bit_fragment_model, 'readFromStream': _read_model('complete')},
+    loops={1: Loop(invariant=_BITS_INV, havoc_fields=_BITS_HAVOC, decl={'bitString': PBits()}, iter_ensures=_BITS_ITER)},
+    yield_ensures=[('the-fragments-bits-in-order', 'last_yield().value.acc == substrate.bitsAcc and substrate.fragsOk'),
+                   ('ended-by-the-marker', 'component is eoo.endOfOctets')],
+    exit_ensures=[('one-result', 'nyields() == 1')],
+    may_raise={'PyAsn1Error': True}, note=BITS_DEC_CONSTRUCTED.note)
+CONTRACTS = CONTRACTS + [BITS_DEC_CONSTRUCTED, BITS_DEC_INDEF]
